@@ -69,3 +69,11 @@ Theorem C05_transform_is_the_table : forall e, Some (Generic.tt e) = match arm_f
 Proof. exact tt_is_the_table. Qed.
 Theorem C05_fold_is_the_table : forall E e, Some (Generic.fold as_bool is_empty un binop E e) = match arm_for gen_fold_constants_arms e with Some b => fold_body E b e | None => None end.
 Proof. exact fold_is_the_table. Qed.
+
+(* the same for the standard library itself (StdEnv.v: the static environment with the 77 registrations, calls going to the builtin models): its if_then is the standard function and
+   no builtin answers "undefined variable", so optimize preserves the value of every script whose variables are defined - every script, every fuel, success or error midway *)
+Require Import StdEnv StdEnvFacts.
+Theorem C05_value_standard_library : forall off vars k e acc st e' tr v,
+  vars_defined (std_env off vars) e = true -> fst (eval_t (std_env off vars) e) = Ok v -> optimize_t (std_env off vars) k e acc = (st, e', tr) -> fst (eval_t (std_env off vars) e') = Ok v.
+Proof. exact optimize_preserves_script_value. Qed.
+Print Assumptions C05_value_standard_library.
